@@ -100,6 +100,7 @@ C13_OBS = [
     ob("O13.1a", DIR + "dir_remove_all_unlink_ok", "utils::remove_all(dir, name), every name <= L, unlinkat succeeds: refused names ('', '.', '..', any '/') make ZERO syscalls and fail; otherwise exactly unlinkat(dir,name,0) and Ok", stubs=RA_STUBS, covers_may_be_unsat=["rmdir-ed", "scanned", "scan open failed"], cost=5),
     ob("O13.1b", DIR + "dir_remove_all_rmdir_ok", "... unlink fails (any errno), rmdir succeeds: unlinkat(0) then unlinkat(AT_REMOVEDIR), Ok", stubs=RA_STUBS, covers_may_be_unsat=["unlinked", "scanned", "scan open failed"], cost=5),
     ob("O13.1f", DIR + "dir_remove_all_scan_enotempty", "... unlink and rmdir fail with ENOTEMPTY (non-empty directory), scan open succeeds: the open is openat(dir, name, O_DIRECTORY|O_NOFOLLOW|O_CLOEXEC|O_NOCTTY), listing failure is reported, sub-directory fd closed", stubs=RA_STUBS, covers_may_be_unsat=["unlinked", "rmdir-ed", "refused", "scan open failed"], cost=6),
+    ob("O13.1g", DIR + "dir_remove_all_open_eacces", "... unlink, rmdir and the scan open all fail with EACCES: EACCES is reported (never Ok), exactly three calls, scan open flags as above", stubs=RA_STUBS, covers_may_be_unsat=["unlinked", "rmdir-ed", "scanned"], cost=6),
     ob("O13.1c", DIR + "dir_remove_all_open_fail", "... unlink, rmdir and the scan open all fail with arbitrary errnos: ENOENT anywhere => Ok, scan open is O_DIRECTORY|O_NOFOLLOW|O_CLOEXEC on (dir,name), other errno => that errno", stubs=RA_STUBS, covers_may_be_unsat=["unlinked", "scanned"], tiers=("thorough",), timeout={"thorough": 3000}, cost=6),
     ob("O13.1d", DIR + "dir_remove_all_scan", "... scan open succeeds, directory listing fails with arbitrary errno: ENOENT => final unlink/rmdir attempt, else error; sub-directory fd closed", stubs=RA_STUBS, covers_may_be_unsat=["unlinked", "scan open failed"], tiers=("thorough",), cost=8),
     ob("O13.1e", DIR + "dir_remove_all_any", "... all fault combinations in one query", stubs=RA_STUBS, tiers=("thorough",), cost=10),
@@ -202,7 +203,7 @@ NEW_STUBS = ["syscalls::fsopen", "syscalls::open_tree", "syscalls::openat_follow
 O_NEW_FAIL = ob("O10.4", PF + "procfs_new_all_fail", "ProcfsHandle::new when fsopen, open_tree and open all fail (fd exhaustion): a clean error after exactly one attempt each, nothing left open", stubs=NEW_STUBS, cost=4)
 O_GLOBAL_INIT = ob("O10.5", PF + "procfs_global_handle_init_fault", "first use of GLOBAL_PROCFS_HANDLE while every constructor fails: must not panic [KNOWN FINDING KF1: it does]", stubs=NEW_STUBS, covers_may_be_unsat=["reached"], cost=4)
 C10_OBS = [O_NEW_FAIL, O_GLOBAL_INIT, O_TFF_FAULT, O_O2_EAGAIN, O_O2_ENOSYS, O_O2_EMFILE, O_FETCH_MNT, O_SAME_MNT, O_IS_PROCFS] + \
-    [o for o in C14_OPS if o["id"] in ("O14.6.base", "O14.5.base", "O14.1.base")] + [C12_OBS[1], C13_OBS[0], C13_OBS[1]] + \
+    [o for o in C14_OPS if o["id"] in ("O14.6.base", "O14.5.base", "O14.1.base")] + [C12_OBS[1], C12_OBS[3], C13_OBS[0], C13_OBS[1]] + [o for o in C13_OBS if o["id"] == "O13.1g"] + \
     [o for o in O_ERR_EQUIV]
 C03_OBS = [O_RESOLVE_PARENT] + [o for o in C14_OPS if o["id"].endswith(".base")] + O_RA_TOP[:1] + [C13_OBS[0], C13_OBS[1], C13_OBS[2], C12_OBS[1]]
 C11_OBS = C11_CAPI + [o for o in C14_OPS if o["id"] in ("O14.5.base", "O14.5.nobase", "O14.6.base", "O14.1.base")] + [O_RESOLVE_PARENT, O_TRY_FROM_FD, O_OPEN_OKPATH, O_OPEN_LOOKUPFAIL, C12_OBS[1], C13_OBS[2], O_OF_LINK]
@@ -330,7 +331,21 @@ NOT_APPLICABLE = {
 QUICK_SETS = {
     "C03": ["O14.0", "O14.1.base", "O14.5.base", "O14.6.base", "O14.7.base", "O13.2a", "O13.1a", "O13.1b", "O12.2a"],
     "C05": ["O5.1a", "O5.1b", "O5.1c", "O5.1d", "O5.2a", "O5.2b", "O5.2c", "O14.5.base", "O13.1f"],
-    "C10": ["O10.4", "O10.5", "O10.3", "O10.1a", "O10.1b", "O10.1c", "O6.1", "O14.6.base", "O12.2c", "O13.1b", "OE.rawos_d0", "OE.os_d0"],
+    "C10": ["O10.4", "O10.5", "O10.3", "O10.1a", "O10.1b", "O10.1c", "O6.1", "O14.6.base", "O12.2c", "O13.1b", "O13.1g", "OE.rawos_d0"],
     "C11": ["O11.c1", "O11.c4", "O14.5.base", "O14.5.nobase", "O14.6.base", "O6.3", "O6.4c", "O12.2d"],
     "C14": ["O14.0", "O14.1.base", "O14.2.base", "O14.3.base", "O14.4.base", "O14.5.base", "O14.6.base", "O14.6.nobase", "O14.7.base", "O14.8", "OE.inval_d0", "OE.rawos_d0"],
 }
+
+# obligations whose harness uses no environment stub: a counterexample is replayed NATIVELY
+# (Kani concrete playback -> cargo kani playback) before it is reported
+PURE = {"fd_proc_subpath_all": "h_fd.rs", "capi_borrowed_fd_all": "h_capi_utils.rs", "capi_parse_path_null": "h_capi_utils.rs",
+        "capi_procfs_base_all": "h_capi_procfs.rs", "capi_copy_path_into_buffer": "h_capi_utils.rs", "capi_copy_path_null_buffer": "h_capi_utils.rs"}
+for _p in PROPERTIES.values():
+    for _o in _p["obligations"]:
+        _n = _o["harness"].split("::")[-1]
+        if _n in PURE:
+            _o["pure"] = True
+            _o["harness_file"] = PURE[_n]
+        if _n.startswith("error_kind_equiv_"):
+            _o["pure"] = True
+            _o["harness_file"] = "h_error.rs"
